@@ -110,6 +110,7 @@ func flagsString(f uint32) string { return engine.WorkSpaceStateFlags(f).String(
 
 // observe reads every query at a quiescent point and applies I1, I3, I5; it returns sid -> state.
 func (t *tcase) observe() map[string]string {
+	defer t.guard("state queries")
 	all, err := t.sk.infos(15)
 	if err != nil {
 		t.violate("state-query-failed", nil, map[string]interface{}{"err": err.Error()})
@@ -417,6 +418,7 @@ func (t *tcase) settle() {
 }
 
 func (t *tcase) act(action uint8, name string) {
+	defer t.guard("ActOnWorkSpace(s) " + name)
 	// single or bulk
 	cur0 := map[string]string{}
 	for sid, s := range t.sp {
@@ -643,6 +645,16 @@ func (t *tcase) keeperStart() {
 	t.run.Count("keeper_starts", 1)
 	t.next() // gate:idle or gate:popped
 	t.judge("none", nil, t.observe(), nil)
+}
+
+// guard turns a panic of a keeper entry point called by the harness into a violation of this case
+// (a panic on the plotter goroutine cannot be recovered: the check script then reports the dead driver).
+func (t *tcase) guard(what string) {
+	if r := recover(); r != nil {
+		buf := make([]byte, 16<<10)
+		t.violate("keeper-entry-point-panicked", map[string]string{"call": what}, map[string]interface{}{"panic": fmt.Sprint(r), "stack": string(buf[:runtime.Stack(buf, false)])})
+		t.dead = true
+	}
 }
 
 func runCase(run *vh.Run, root *vh.Rng, i int) {
